@@ -102,6 +102,8 @@ class Sched:
         self.switches = 0
         self.contended = 0
         self.preempted_in = []
+        self.zero_time_ops = 0
+        self.max_zero_time_ops = 400000
         self.alive_at_end = []
         self.blocked_at_end = {}
         self.finished_normally = False
@@ -118,7 +120,7 @@ class Sched:
         return EPOCH + self.now
 
     # -- running -----------------------------------------------------------
-    def run(self, main, *args, wall_limit=60.0, **kw):
+    def run(self, main, *args, wall_limit=30.0, **kw):
         """Run main() in a sim thread until every sim thread is done or the run is aborted.
         Returns the main SimThread."""
         t = SimThread(self, main, args, kw, name="main")
@@ -209,6 +211,8 @@ class Sched:
             if nt > self.horizon:
                 self._abort("horizon", f"virtual time would pass the horizon {self.horizon}s (now {self.now:.3f})")
                 raise SimAbort()
+            if nt > self.now:
+                self.zero_time_ops = 0
             self.now = max(self.now, nt)
             while self.events and self.events[0][0] <= self.now:
                 _, _, fn = heapq.heappop(self.events)
@@ -237,6 +241,7 @@ class Sched:
         me = self.current
         if self.aborting:
             raise SimAbort()
+        self._tick()
         if pred is not None and pred():
             return True
         if timeout is not None and timeout <= 0:
@@ -250,10 +255,19 @@ class Sched:
         me.deadline = None
         return me.wake_ok
 
+    def _tick(self):
+        """Livelock guard: too many scheduler operations without any progress of virtual time."""
+        self.zero_time_ops += 1
+        if self.zero_time_ops > self.max_zero_time_ops:
+            self.zero_time_ops = -10**12
+            self._abort("livelock", f"more than {self.max_zero_time_ops} blocking-primitive calls without progress of virtual time (t={self.now:.3f})")
+            raise SimAbort()
+
     def yield_point(self, why="", forced=None):
         me = self.current
         if self.aborting:
             raise SimAbort()
+        self._tick()
         if me is None or _real_threading.current_thread() is not me.real:
             return
         me.state = "runnable"
